@@ -459,4 +459,251 @@ theorem linksBetween_eq (m : C03.Machine) (hw : 1 ≤ m.w) (hh : 1 ≤ m.h) (a b
   exact ⟨h1, by rw [C11.linksBetween_exact, h1]⟩
 
 
+/-! ### geodesics: a labelled walk whose length is the graph distance -/
+
+theorem walkOk_cons {w h : Option Int} {p : C11.P2} {l : Nat} {q : C11.P2} {rest : List (Nat × C11.P2)}
+    (hok : C11.walkOk w h p ((l, q) :: rest) = true) :
+    ∃ d, C11.specVec l = some d ∧ d ∈ C11.hexSteps ∧ q = C11.stepTo w h p d ∧ C11.walkOk w h q rest = true := by
+  simp only [C11.walkOk, Bool.and_eq_true] at hok
+  obtain ⟨h1, h2⟩ := hok
+  cases hs : C11.specVec l with
+  | none => simp [hs] at h1
+  | some d =>
+    simp only [hs, beq_iff_eq] at h1
+    exact ⟨d, rfl, C11.specVec_mem hs, h1.symm, h2⟩
+
+/-- every chip of a walk splits it into a walk to the chip and a walk from the chip to the end -/
+theorem walk_split {w h : Option Int} : ∀ (path : List (Nat × C11.P2)) (p c : C11.P2),
+    C11.walkOk w h p path = true → c ∈ path.map (·.2) →
+    ∃ i j, 1 ≤ i ∧ i + j = path.length ∧ C11.Reach w h i p c ∧ C11.Reach w h j c (C11.lastPos p path) := by
+  intro path
+  induction path with
+  | nil => intro p c _ hc; simp at hc
+  | cons e rest ih =>
+    intro p c hok hc
+    obtain ⟨l, q⟩ := e
+    obtain ⟨d, hs, hd, hq, hrest⟩ := walkOk_cons hok
+    rw [C11.lastPos_cons]
+    simp only [List.map_cons, List.mem_cons] at hc
+    rcases hc with rfl | hc
+    · refine ⟨1, rest.length, Nat.le_refl _, by simp; omega, ?_, C11.walkOk_reach w h _ rest hrest⟩
+      rw [hq]; exact C11.Reach.step d (C11.Reach.refl p) hd
+    · obtain ⟨i, j, hi, hij, r1, r2⟩ := ih q c hrest hc
+      exact ⟨i + 1, j, by omega, by simp; omega, C11.reach_cons hd hq r1, r2⟩
+
+/-- **A shortest walk visits no chip twice** (and does not return to its start). -/
+theorem geodesic_nodup {w h : Option Int} : ∀ (path : List (Nat × C11.P2)) (p : C11.P2),
+    C11.walkOk w h p path = true →
+    (∀ m, C11.Reach w h m p (C11.lastPos p path) → path.length ≤ m) →
+    (p :: path.map (·.2)).Nodup := by
+  intro path
+  induction path with
+  | nil => intro p _ _; simp
+  | cons e rest ih =>
+    intro p hok hmin
+    obtain ⟨l, q⟩ := e
+    obtain ⟨d, hs, hd, hq, hrest⟩ := walkOk_cons hok
+    rw [List.nodup_cons]
+    constructor
+    · intro hmem
+      obtain ⟨i, j, hi, hij, r1, r2⟩ := walk_split _ p p hok hmem
+      have := hmin j r2
+      omega
+    · apply ih q hrest
+      intro m hr
+      rw [C11.lastPos_cons] at hmin
+      have := hmin (m + 1) (C11.reach_cons hd hq hr)
+      simp at this; omega
+
+
+theorem projT_inrange (c : C03.Chip) (w h : Nat) (h1 : 0 ≤ c.1) (h2 : c.1 < (w : Int)) (h3 : 0 ≤ c.2)
+    (h4 : c.2 < (h : Int)) : C11.projT (C11.toXyz c) w h = c := by
+  simp only [C11.projT, C11.toXyz, Int.sub_zero, Int.emod_eq_of_lt h1 h2, Int.emod_eq_of_lt h3 h4]
+
+/-- **The route `ner_net` walks towards a destination on a torus is a shortest walk.**  In the C03 model: the
+vector from `shortest_torus_path`, walked by `longest_dimension_first`, for every content of the oracle tape,
+is a labelled walk of the `w × h` hexagonal torus from the neighbour to the destination whose number of hops is
+`shortest_torus_path_length` = the graph distance (C11); hence it visits no chip twice. -/
+theorem torus_route (nb dest : C03.Chip) (w h : Nat) (hw : 1 ≤ w) (hh : 1 ≤ h)
+    (n1 : 0 ≤ nb.1) (n2 : nb.1 < (w : Int)) (n3 : 0 ≤ nb.2) (n4 : nb.2 < (h : Int))
+    (d1 : 0 ≤ dest.1) (d2 : dest.1 < (w : Int)) (d3 : 0 ≤ dest.2) (d4 : dest.2 < (h : Int))
+    (t t1 t2 : C03.Tape) (v : C03.V3) (path : List (Nat × C03.Chip))
+    (hv : C03.torusPath nb dest w h t = .ok (v, t1)) (hl : C03.ldf v nb w h t1 = .ok (path, t2)) :
+    C11.walkOk (some (w : Int)) (some (h : Int)) nb path = true ∧ C11.lastPos nb path = dest ∧
+    (path.length : Int) = C03.torusLen nb dest w h ∧
+    C11.IsDist (some (w : Int)) (some (h : Int)) nb dest path.length ∧
+    (nb :: path.map (·.2)).Nodup := by
+  obtain ⟨k0, k1, k2, k3, s, a0, a1, a2, a3, hv'⟩ := torusPath_eq nb dest w h hw hh t t1 v hv
+  obtain ⟨j0, j1, j2, b0, b1, b2, hl'⟩ := ldf_eq v nb w h hw hh t1 t2 path hl
+  obtain ⟨v', path', c1, c2, c3, c4, c5⟩ :=
+    C11.torus_walk_compose (C11.toXyz nb) (C11.toXyz dest) w h (by omega) (by omega) 1048576 k0 k1 k2 k3 s
+      a0 a1 a2 a3 1048576 j0 j1 j2 b0 b1 b2
+  rw [hv'] at c1
+  simp only [Except.ok.injEq] at c1
+  subst c1
+  rw [projT_inrange nb w h n1 n2 n3 n4] at c2 c4 c5
+  rw [projT_inrange dest w h d1 d2 d3 d4] at c5
+  rw [hl'] at c2
+  simp only [Except.ok.injEq] at c2
+  subst c2
+  rw [torusLen_eq nb dest w h hw hh] at c3
+  simp only [Except.ok.injEq] at c3
+  obtain ⟨n, e1, e2⟩ := C11.torusLen_eq_dist (C11.toXyz nb) (C11.toXyz dest) w h (by omega) (by omega)
+  rw [torusLen_eq nb dest w h hw hh] at e1
+  simp only [Except.ok.injEq] at e1
+  rw [projT_inrange nb w h n1 n2 n3 n4, projT_inrange dest w h d1 d2 d3 d4] at e2
+  have hn : n = path.length := by omega
+  subst hn
+  refine ⟨c4, c5, c3.symm, e2, ?_⟩
+  apply geodesic_nodup path nb c4
+  intro m hr
+  rw [c5] at hr
+  exact e2.2 m hr
+
+/-! ### mesh: the unwrapped walk stays inside the machine -/
+
+theorem mapM_some1_inv : ∀ (raw : List (Option Nat × C11.P2)) (path : List (Nat × C11.P2)),
+    raw.mapM (fun e : Option Nat × C11.P2 =>
+      match e.1 with
+      | some l => (Except.ok (l, e.2) : Except C11.Err (Nat × C11.P2))
+      | none => .error .keyError) = .ok path → raw = path.map C11.some1 := by
+  intro raw
+  induction raw with
+  | nil => intro path h; simp only [List.mapM_nil, pure, Except.pure, Except.ok.injEq] at h; subst h; rfl
+  | cons e r ih =>
+    intro path h
+    obtain ⟨lab, q⟩ := e
+    simp only [List.mapM_cons, bind, Except.bind] at h
+    cases lab with
+    | none => simp at h
+    | some l =>
+      simp only at h
+      split at h
+      · simp at h
+      rename_i r' hr'
+      simp only [pure, Except.pure, Except.ok.injEq] at h
+      subst h
+      simp only [List.map_cons, C11.some1, ih r' hr']
+
+def InBox (w h : Nat) (c : C11.P2) : Prop := 0 ≤ c.1 ∧ c.1 < (w : Int) ∧ 0 ≤ c.2 ∧ c.2 < (h : Int)
+
+theorem stepTo_inbox (w h : Nat) (p d : C11.P2) (hb : InBox w h (C11.stepTo none none p d)) :
+    C11.stepTo (some (w : Int)) (some (h : Int)) p d = C11.stepTo none none p d := by
+  obtain ⟨b1, b2, b3, b4⟩ := hb
+  simp only [C11.stepTo, C11.wrap] at b1 b2 b3 b4 ⊢
+  have hw' : (0 : Int) ≤ w := by omega
+  have hh' : (0 : Int) ≤ h := by omega
+  simp only [C11.pyMod, Int.fmod_eq_emod_of_nonneg _ hw', Int.fmod_eq_emod_of_nonneg _ hh',
+    Int.emod_eq_of_lt b1 b2, Int.emod_eq_of_lt b3 b4]
+
+theorem walkDim_inbox (w h : Nat) (dv : C11.P2) (lab : Option Nat) : ∀ (n : Nat) (p : C11.P2),
+    (∀ e, e ∈ C11.walkDim none none dv lab n p → InBox w h e.2) →
+    C11.walkDim (some (w : Int)) (some (h : Int)) dv lab n p = C11.walkDim none none dv lab n p ∧
+    C11.posAfter (some (w : Int)) (some (h : Int)) dv n p = C11.posAfter none none dv n p := by
+  intro n
+  induction n with
+  | zero => intro p _; exact ⟨rfl, rfl⟩
+  | succ n ih =>
+    intro p hb
+    simp only [C11.walkDim, List.mem_cons] at hb
+    have e := stepTo_inbox w h p dv (hb _ (Or.inl rfl))
+    obtain ⟨i1, i2⟩ := ih (C11.stepTo none none p dv) (fun e he => hb e (Or.inr he))
+    simp only [C11.walkDim, C11.posAfter, e, i1, i2, and_self]
+
+theorem ldfLoop_inbox (w h : Nat) : ∀ (items : List (Nat × Int × Int)) (p : C11.P2),
+    (∀ e, e ∈ C11.ldfLoop none none items p → InBox w h e.2) →
+    C11.ldfLoop (some (w : Int)) (some (h : Int)) items p = C11.ldfLoop none none items p := by
+  intro items
+  induction items with
+  | nil => intro p _; rfl
+  | cons it rest ih =>
+    intro p hb
+    obtain ⟨dim, mag, key⟩ := it
+    simp only [C11.ldfLoop] at hb ⊢
+    by_cases hm : mag = 0
+    · simp only [hm, if_true]
+    · simp only [hm, if_false, List.mem_append] at hb ⊢
+      obtain ⟨i1, i2⟩ := walkDim_inbox w h _ _ _ p (fun e he => hb e (Or.inl he))
+      rw [i1, i2, ih _ (fun e he => hb e (Or.inr he))]
+
+/-- every chip of a shortest walk of the unbounded mesh lies in the bounding box of its two ends -/
+theorem geodesic_box (path : List (Nat × C11.P2)) (p c : C11.P2)
+    (hok : C11.walkOk none none p path = true)
+    (hlen : (path.length : Int) = C11.hexLen ((C11.lastPos p path).1 - p.1) ((C11.lastPos p path).2 - p.2))
+    (hc : c ∈ path.map (·.2)) :
+    (min p.1 (C11.lastPos p path).1 ≤ c.1 ∧ c.1 ≤ max p.1 (C11.lastPos p path).1) ∧
+    (min p.2 (C11.lastPos p path).2 ≤ c.2 ∧ c.2 ≤ max p.2 (C11.lastPos p path).2) := by
+  obtain ⟨i, j, hi, hij, r1, r2⟩ := walk_split path p c hok hc
+  have l1 := C11.reach_mesh_lower r1
+  have l2 := C11.reach_mesh_lower r2
+  generalize C11.lastPos p path = q at *
+  have : (i : Int) + j = path.length := by omega
+  simp only [C11.hexLen] at l1 l2 hlen
+  omega
+
+/-- **The route `ner_net` walks towards a destination on a mesh is a shortest walk that never leaves the
+machine.**  In the C03 model (whose `longest_dimension_first` always reduces modulo width / height): with both
+ends inside the `w × h` machine, the walk of the `shortest_mesh_path` vector is a labelled walk of the
+UNWRAPPED hexagonal mesh (no hop uses a wrap-around link), every chip of it is inside the machine, its number of
+hops is `shortest_mesh_path_length` = the graph distance (C11), and it visits no chip twice. -/
+theorem mesh_route (nb dest : C03.Chip) (w h : Nat) (hw : 1 ≤ w) (hh : 1 ≤ h)
+    (hn : InBox w h nb) (hd : InBox w h dest) (t t2 : C03.Tape) (path : List (Nat × C03.Chip))
+    (hl : C03.ldf (C03.meshPath nb dest) nb w h t = .ok (path, t2)) :
+    C11.walkOk none none nb path = true ∧ C11.lastPos nb path = dest ∧
+    (path.length : Int) = C03.meshLen nb dest ∧
+    (∀ c, c ∈ path.map (·.2) → InBox w h c) ∧
+    (nb :: path.map (·.2)).Nodup := by
+  obtain ⟨j0, j1, j2, b0, b1, b2, hl'⟩ := ldf_eq _ nb w h hw hh t t2 path hl
+  obtain ⟨path', p1, p2⟩ := C11.ldf_walk (v3 (C03.meshPath nb dest)) nb none none 1048576 j0 j1 j2 b0 b1 b2
+  simp only [C11.ldfOk, Bool.and_eq_true, beq_iff_eq, C11.congr?] at p2
+  obtain ⟨⟨⟨q1, q2⟩, q3⟩, q4⟩ := p2
+  obtain ⟨m1, m2⟩ := C11.meshPath_ok (C11.toXyz nb) (C11.toXyz dest)
+  have hvv : v3 (C03.meshPath nb dest) = C11.meshPath (C11.toXyz nb) (C11.toXyz dest) := by
+    rw [meshPath_eq]; rfl
+  rw [hvv] at q2 q3 q4
+  have hlast : C11.lastPos nb path' = dest := by
+    simp only [C11.proj, Prod.mk.injEq] at m2
+    have x1 : (C11.toXyz nb).x = nb.1 := rfl
+    have x2 : (C11.toXyz nb).y = nb.2 := rfl
+    have x3 : (C11.toXyz nb).z = 0 := rfl
+    have x4 : (C11.toXyz dest).x = dest.1 := rfl
+    have x5 : (C11.toXyz dest).y = dest.2 := rfl
+    have x6 : (C11.toXyz dest).z = 0 := rfl
+    ext
+    · rw [q3]; omega
+    · rw [q4]; omega
+  have hlen : (path'.length : Int) = C03.meshLen nb dest := by rw [q2, m1, meshLen_eq]
+  have hhex : C03.meshLen nb dest = C11.hexLen (dest.1 - nb.1) (dest.2 - nb.2) := by
+    rw [meshLen_eq, C11.meshLen_eq_hexLen]; simp [C11.proj, C11.toXyz]
+  have hbox : ∀ c, c ∈ path'.map (·.2) → InBox w h c := by
+    intro c hc
+    have := geodesic_box path' nb c q1 (by rw [hlast, hlen, hhex]) hc
+    rw [hlast] at this
+    obtain ⟨n1, n2, n3, n4⟩ := hn
+    obtain ⟨d1, d2, d3, d4⟩ := hd
+    refine ⟨?_, ?_, ?_, ?_⟩ <;> omega
+  -- the wrapped and the unwrapped walk coincide
+  have hraw := mapM_some1_inv _ _ p1
+  have hsame : C11.ldf (v3 (C03.meshPath nb dest)) nb (some (w : Int)) (some (h : Int)) 1048576 j0 j1 j2 =
+      .ok path' := by
+    rw [← p1]
+    simp only [C11.ldf, C11.ldfRaw]
+    rw [ldfLoop_inbox w h]
+    intro e he
+    simp only [C11.ldfRaw] at hraw
+    rw [hraw] at he
+    simp only [List.mem_map] at he
+    obtain ⟨e', he', rfl⟩ := he
+    exact hbox e'.2 (List.mem_map_of_mem he')
+  rw [hl'] at hsame
+  simp only [Except.ok.injEq] at hsame
+  subst hsame
+  refine ⟨q1, hlast, hlen, hbox, ?_⟩
+  apply geodesic_nodup path nb q1
+  intro m hr
+  have := C11.reach_mesh_lower hr
+  rw [hlast] at this
+  have h0 : (path.length : Int) ≤ m := by rw [hlen, hhex]; exact this
+  omega
+
 end Rig.Cross
